@@ -572,6 +572,9 @@ func (c *Client) handleFetch(seqNum uint32) error {
 			if !dec.ExpectSP() || !dec.ExpectUID(&uid) {
 				return dec.Err()
 			}
+			if uid == 0 {
+				return fmt.Errorf("in msg-att-static: UID must be non-zero")
+			}
 
 			item = FetchItemDataUID{UID: uid}
 		case "BODY", "BINARY":
